@@ -355,14 +355,18 @@ def reroute_strategy():
     })
     return st.tuples(target, st.sampled_from(['endpoint', 'raise-endpoint', 'raise-middleware', 'raise-render']),
                      st.sampled_from(['GET', 'POST', 'PUT']), st.sampled_from(['', 'a=1&b=2']),
-                     st.lists(st.sampled_from(['plain', 'provides']), max_size=2), st.sampled_from(['/go', '/go/deep/er']))
+                     st.lists(st.sampled_from(['plain', 'provides']), max_size=2), st.sampled_from(['/go', '/go/deep/er']),
+                     # application-level WSGI wrappers around the rerouting application: handing on a copy of the environ with an
+                     # entry of their own, decorating start_response, calling the inner application lazily, or passing through
+                     st.lists(st.sampled_from(['copy', 'header', 'lazy', 'pass']), max_size=3, unique=True))
 
 
 def reroute_body(case, ctx):
     from clastic import Application, Route, Response, Middleware
     from clastic.application import RerouteWSGI
-    tspec, how, method, query, mwkinds, path = case
-    rc = [tspec, how, method, query, list(mwkinds), path]
+    tspec, how, method, query, mwkinds, path = case[:6]
+    wrappers = list(case[6]) if len(case) > 6 else []
+    rc = [tspec, how, method, query, list(mwkinds), path, wrappers]
     ctx.current = rc
     got = {}
 
@@ -407,7 +411,28 @@ def reroute_body(case, ctx):
     else:
         ep = (lambda: Response('never')) if pattern == '/go' else (lambda rest: Response('never'))
         route = Route(pattern, ep, middlewares=mws + [Raiser()])
-    app = Application([route])
+    def make_wrapper(kind):
+        def wsgi_wrapper(self, inner):
+            if kind == 'copy':
+                def wrapped(environ, start_response):
+                    e2 = dict(environ)
+                    e2['zq.wrapper.copy'] = 'added-by-wrapper'
+                    return inner(e2, start_response)
+            elif kind == 'header':
+                def wrapped(environ, start_response):
+                    def sr(status, headers, exc_info=None):
+                        return start_response(status, list(headers) + [('X-Zq-Wrapper', 'header')], exc_info)
+                    return inner(environ, sr)
+            elif kind == 'lazy':
+                def wrapped(environ, start_response):
+                    for chunk in inner(environ, start_response):
+                        yield chunk
+            else:
+                def wrapped(environ, start_response):
+                    return inner(environ, start_response)
+            return wrapped
+        return type('ZqWrap_' + kind, (Middleware,), {'wsgi_wrapper': wsgi_wrapper})()
+    app = Application([route], middlewares=[make_wrapper(k) for k in wrappers])
     body = b'payload-bytes' if method in ('POST', 'PUT') else b''
     env = make_environ(path, method, query, headers={'X-Custom': 'zq', 'Cookie': 'k=v'}, body=body, extra={'zq.custom': object()})
     before = dict(env)
@@ -420,8 +445,15 @@ def reroute_body(case, ctx):
     if 'environ' not in got:
         ctx.mismatch('reroute-target-not-called', '%s: the target application was never called (status %s)' % (what, r.status), rc)
         return
-    if got['environ'] is not env:
+    if wrappers:
+        what += ' behind WSGI wrappers %s' % wrappers
+        ctx.event('reroute-behind-wrappers')
+    if 'copy' not in wrappers and got['environ'] is not env:
         ctx.mismatch('reroute-environ-copy', '%s: the target received a different environ object' % what, rc)
+        return
+    if 'copy' in wrappers and got['snapshot_after'].get('zq.wrapper.copy') != 'added-by-wrapper':
+        # the request's own environ is the one the wrapper stack handed to the application
+        ctx.mismatch('reroute-bypasses-wrappers', '%s: the target did not receive the environ the wrapper handed on (its entry is missing)' % what, rc)
         return
     for k, v in before.items():
         if k not in got['snapshot_after'] or got['snapshot_after'][k] is not v and got['snapshot_after'][k] != v:
@@ -430,7 +462,8 @@ def reroute_body(case, ctx):
     if tspec['reads_body'] and got.get('body') != body:
         ctx.mismatch('reroute-body-consumed', '%s: the target read %r from wsgi.input, the client sent %r' % (what, got.get('body'), body), rc)
         return
-    if r.status_line != tspec['status'] or [tuple(h) for h in r.headers] != [tuple(h) for h in tspec['headers']] or \
+    want_headers = [tuple(h) for h in tspec['headers']] + ([('X-Zq-Wrapper', 'header')] if 'header' in wrappers else [])
+    if r.status_line != tspec['status'] or [tuple(h) for h in r.headers] != want_headers or \
             r.body != b''.join(tspec['chunks']):
         ctx.mismatch('reroute-not-verbatim', '%s: client saw %r %r %r' % (what, r.status_line, r.headers, r.body[:40]), rc)
         return
